@@ -163,6 +163,145 @@ theorem op_fixed_uncut (env : Env α) (st st' : Eps α) (a a' : Allocation α) (
   subst e1
   exact ⟨parts, e, hp.imp (fun c p ht => ⟨ht, ht.fixedKept⟩)⟩
 
+/-! ### the read accessors (`num_rectangles`, `num_modules`, `allocation_rectangle`, `allocation_module`,
+      `check_compatible`) -/
+
+/-- `allocation_rectangle(i)` is Python list indexing guarded by `assert i < num_rectangles`: indices `0 … n−1` give the
+    cells in order, `−1 … −n` count from the end, `i ≥ n` fails the assertion and `i < −n` is an `IndexError`. -/
+theorem allocationRectangle_spec (a : Allocation α) (i : Int) :
+    ((a.numRectangles : Int) ≤ i → a.allocationRectangle i = .error .assertion) ∧
+    (i < -(a.numRectangles : Int) → a.allocationRectangle i = .error .index) ∧
+    (∀ k : Nat, i = (k : Int) → k < a.numRectangles → a.allocationRectangle i = (a.cells[k]?.elim (.error .index) .ok) ∧
+      a.cells[k]?.isSome = true) ∧
+    (∀ k : Nat, i = -((k : Int) + 1) → k < a.numRectangles →
+      a.allocationRectangle i = (a.cells[a.numRectangles - 1 - k]?.elim (.error .index) .ok) ∧
+      a.cells[a.numRectangles - 1 - k]?.isSome = true) := by
+  unfold Allocation.allocationRectangle Allocation.numRectangles
+  refine ⟨?_, ?_, ?_, ?_⟩
+  · intro h
+    simp only [not_lt.mpr h, not_false_eq_true, ↓reduceIte]
+  · intro h
+    have h1 : i < (a.cells.length : Int) := by omega
+    simp only [h1, not_true_eq_false, ↓reduceIte, h]
+  · intro k hk hlt
+    subst hk
+    have h1 : ((k : Int) < (a.cells.length : Int)) := by omega
+    have h2 : ¬ ((k : Int) < -(a.cells.length : Int)) := by omega
+    have h3 : ¬ ((k : Int) < 0) := by omega
+    simp only [h1, not_true_eq_false, ↓reduceIte, h2, h3, Int.toNat_natCast]
+    rw [List.getElem?_eq_getElem hlt]
+    exact ⟨rfl, rfl⟩
+  · intro k hk hlt
+    subst hk
+    have h1 : (-((k : Int) + 1) < (a.cells.length : Int)) := by omega
+    have h2 : ¬ (-((k : Int) + 1) < -(a.cells.length : Int)) := by omega
+    have h3 : (-((k : Int) + 1) < 0) := by omega
+    have h4 : ((a.cells.length : Int) + -((k : Int) + 1)).toNat = a.cells.length - 1 - k := by omega
+    have h5 : a.cells.length - 1 - k < a.cells.length := by omega
+    simp only [h1, not_true_eq_false, ↓reduceIte, h2, h3, h4]
+    rw [List.getElem?_eq_getElem h5]
+    exact ⟨rfl, rfl⟩
+
+/-- **`allocation_module` and `allocation_rectangle` agree** (the two indexes `_module2rect` / `_allocations` of the
+    object): `allocation_module(m)` fails exactly on names no cell lists; otherwise every entry `(i, r)` points to a cell
+    `allocation_rectangle(i)` that lists `m` with ratio `r`, every cell listing `m` has its entry, the indices are
+    strictly increasing, and the ratios are the ones `area(m)` sums (`entries`). -/
+theorem allocationModule_consistent (a : Allocation α) (m : String) :
+    (m ∉ modules a.cells → a.allocationModule m = .error .key) ∧
+    (m ∈ modules a.cells → a.allocationModule m = .ok (moduleAllocs m a.cells)) ∧
+    (∀ p ∈ moduleAllocs m a.cells, ∃ c, a.cells[p.1]? = some c ∧ a.allocationRectangle (p.1 : Int) = .ok c ∧
+      c.alloc.lookup m = some p.2) ∧
+    (∀ (i : Nat) (c : Cell α) (r : α), a.cells[i]? = some c → c.alloc.lookup m = some r → (i, r) ∈ moduleAllocs m a.cells) ∧
+    (moduleAllocs m a.cells).Pairwise (fun p q => p.1 < q.1) ∧
+    (moduleAllocs m a.cells).map Prod.snd = (entries m a.cells).map Prod.snd := by
+  refine ⟨?_, ?_, ?_, ?_, ?_, ?_⟩
+  · intro h
+    unfold Allocation.allocationModule
+    have : (modules a.cells).contains m = false := by simpa using h
+    rw [this]; rfl
+  · intro h
+    unfold Allocation.allocationModule
+    have : (modules a.cells).contains m = true := by simpa using h
+    rw [this]; rfl
+  · intro p hp
+    unfold moduleAllocs at hp
+    obtain ⟨⟨c, i⟩, hci, hlk⟩ := List.mem_filterMap.mp hp
+    have hget : a.cells[i]? = some c := List.mem_zipIdx_iff_getElem?.mp hci
+    simp only [Option.map_eq_some_iff] at hlk
+    obtain ⟨occ, ho, rfl⟩ := hlk
+    have hlt : i < a.cells.length := by
+      by_contra hge
+      rw [List.getElem?_eq_none (by omega)] at hget; cases hget
+    refine ⟨c, hget, ?_, ho⟩
+    obtain ⟨h1, _⟩ := (allocationRectangle_spec a (i : Int)).2.2.1 i rfl hlt
+    rw [h1, hget]; rfl
+  · intro i c r hget hlk
+    unfold moduleAllocs
+    refine List.mem_filterMap.mpr ⟨(c, i), List.mem_zipIdx_iff_getElem?.mpr hget, ?_⟩
+    simp [hlk]
+  · unfold moduleAllocs
+    generalize a.cells = cs
+    suffices h : ∀ (k : Nat), ((cs.zipIdx k).filterMap fun (x : Cell α × Nat) => (x.1.alloc.lookup m).map fun occ => (x.2, occ)).Pairwise
+        (fun p q => p.1 < q.1) ∧ ∀ p ∈ ((cs.zipIdx k).filterMap fun (x : Cell α × Nat) => (x.1.alloc.lookup m).map fun occ => (x.2, occ)), k ≤ p.1 from (h 0).1
+    induction cs with
+    | nil => intro k; simp
+    | cons c cs ih =>
+      intro k
+      obtain ⟨ih1, ih2⟩ := ih (k + 1)
+      rw [List.zipIdx_cons, List.filterMap_cons]
+      cases hl : c.alloc.lookup m with
+      | none =>
+        simp only [Option.map_none]
+        exact ⟨ih1, fun p hp => by have := ih2 p hp; omega⟩
+      | some occ =>
+        simp only [Option.map_some, List.pairwise_cons, List.mem_cons]
+        refine ⟨⟨fun q hq => by have := ih2 q hq; omega, ih1⟩, ?_⟩
+        intro p hp
+        rcases hp with rfl | hp
+        · exact le_refl _
+        · have := ih2 p hp; omega
+  · unfold moduleAllocs entries
+    generalize a.cells = cs
+    suffices h : ∀ (k : Nat), ((cs.zipIdx k).filterMap fun (x : Cell α × Nat) => (x.1.alloc.lookup m).map fun occ => (x.2, occ)).map Prod.snd =
+        (cs.filterMap fun c => (c.alloc.lookup m).map fun occ => (c.rect, occ)).map Prod.snd from h 0
+    induction cs with
+    | nil => intro k; simp
+    | cons c cs ih =>
+      intro k
+      rw [List.zipIdx_cons, List.filterMap_cons, List.filterMap_cons]
+      cases hl : c.alloc.lookup m with
+      | none => simp only [Option.map_none]; exact ih (k + 1)
+      | some occ => simp only [Option.map_some, List.map_cons, List.cons.injEq, true_and]; exact ih (k + 1)
+
+/-- **no operation changes which modules are allocated**: the dictionary keys (`modules`), hence `num_modules`, the verdict
+    of `check_compatible` against any netlist, and the set of names `allocation_module` accepts, are those of the input. -/
+theorem op_keeps_modules (env : Env α) (st st' : Eps α) (a a' : Allocation α) (op : Op α) (hv : ValidAlloc st a)
+    (hop : OpOK op) (h : applyOp env st a op = .ok (a', st')) :
+    modules a'.cells = modules a.cells ∧ a'.numModules = a.numModules ∧
+      (∀ names, a'.checkCompatible names = a.checkCompatible names) ∧
+      (∀ m, a'.allocationModule m = .error .key ↔ a.allocationModule m = .error .key) := by
+  obtain ⟨a1, h1, _, r1, _⟩ := applyOp_spec env st a op hv hop
+  rw [h1] at h
+  injection h with h; injection h with e1 e2
+  subst e1
+  have hm := modules_refines r1
+  refine ⟨hm, by unfold Allocation.numModules; rw [hm], fun names => by unfold Allocation.checkCompatible; rw [hm], ?_⟩
+  intro m
+  unfold Allocation.allocationModule
+  rw [hm]
+  by_cases hc : (modules a.cells).contains m = true
+  · simp [hc]
+  · simp [hc]
+
+/-- `check_compatible` answers set equality of the two name sets. -/
+theorem checkCompatible_iff (a : Allocation α) (names : List String) :
+    a.checkCompatible names = true ↔ ∀ n, n ∈ names ↔ n ∈ modules a.cells := by
+  unfold Allocation.checkCompatible
+  simp only [Bool.and_eq_true, List.all_eq_true, List.contains_iff_mem]
+  constructor
+  · intro ⟨h1, h2⟩ n; exact ⟨h1 n, h2 n⟩
+  · intro h; exact ⟨fun n hn => (h n).mp hn, fun n hn => (h n).mpr hn⟩
+
 /-! ### any composition -/
 
 /-- **any composition of the three operations** succeeds on a valid allocation and conserves everything:
@@ -178,6 +317,59 @@ theorem ops_conserve (env : Env α) (st : Eps α) (ops : List (Op α)) (a : Allo
   refine ⟨a', h1, v1, r1, s1, fun m => ⟨areaSum_refines m r1, momXSum_refines m r1, momYSum_refines m r1, ?_, ?_⟩⟩
   · unfold Allocation.areaOf; rw [s1]
   · unfold Allocation.centerOf; rw [s1]
+
+/-! ### histories on one object: operations interleaved with cells flagged fixed in place -/
+
+/-- **flagging cells fixed in place keeps the allocation valid** — so every theorem of this file applies again to the
+    object after `a.allocations[i].rect.fixed = True`. -/
+theorem flag_fixed_valid (st : Eps α) (a : Allocation α) (idxs : List Nat) (hv : ValidAlloc st a) :
+    ValidAlloc st (a.markFixed idxs) := markFixed_valid st a idxs hv
+
+/-- **a cell flagged fixed in place is never cut afterwards**: whatever operation follows, the flagged cell — same
+    rectangle, ratios and depth, now fixed — is a cell of the result.  (The decision is taken on the flags the object has
+    WHEN THE OPERATION IS CALLED; nothing remembered from an earlier query may be used.) -/
+theorem flagged_then_uncut (env : Env α) (st : Eps α) (a : Allocation α) (idxs : List Nat) (op : Op α)
+    (hv : ValidAlloc st a) (hop : OpOK op) (i : Nat) (c : Cell α) (hi : i ∈ idxs) (hc : a.cells[i]? = some c) :
+    ∃ a', applyOp env st (a.markFixed idxs) op = .ok (a', st) ∧
+      ({ c with rect := { c.rect with fixed := true } } : Cell α) ∈ a'.cells := by
+  have hv' := markFixed_valid st a idxs hv
+  obtain ⟨a', h1, _, r1, _⟩ := applyOp_spec env st (a.markFixed idxs) op hv' hop
+  refine ⟨a', h1, r1.fixed_kept _ ?_ rfl⟩
+  have := markFixed_cells a idxs i
+  rw [hc] at this
+  have hcont : idxs.contains i = true := by simpa using hi
+  simp only [Option.map_some, hcont, ↓reduceIte] at this
+  exact List.mem_of_getElem? this
+
+/-- **any history** of refinement operations and in-place flag changes on a valid allocation succeeds and conserves the
+    caches `_areas / _centers` literally and the per-module sums (area and first moments). -/
+theorem history_conserve (env : Env α) (st : Eps α) : ∀ (steps : List (HStep α)) (a : Allocation α), ValidAlloc st a →
+    (∀ o, HStep.op o ∈ steps → OpOK o) →
+    ∃ a', applyHist env steps st a = .ok (a', st) ∧ ValidAlloc st a' ∧ a'.stats = a.stats ∧
+      ∀ m, areaSum m a'.cells = areaSum m a.cells ∧ momXSum m a'.cells = momXSum m a.cells ∧
+        momYSum m a'.cells = momYSum m a.cells := by
+  intro steps
+  induction steps with
+  | nil => intro a hv _; exact ⟨a, rfl, hv, rfl, fun m => ⟨rfl, rfl, rfl⟩⟩
+  | cons s rest ih =>
+    intro a hv hops
+    cases s with
+    | op o =>
+      obtain ⟨a1, e1, v1, r1, s1⟩ := applyOp_spec env st a o hv (hops o (by simp))
+      obtain ⟨a2, e2, v2, s2, h2⟩ := ih a1 v1 (fun o' ho' => hops o' (by simp [ho']))
+      refine ⟨a2, by simp only [applyHist, e1, e2], v2, s2.trans s1, fun m => ?_⟩
+      obtain ⟨x1, x2, x3⟩ := h2 m
+      exact ⟨x1.trans (areaSum_refines m r1), x2.trans (momXSum_refines m r1), x3.trans (momYSum_refines m r1)⟩
+    | fix idxs =>
+      have hg := markFixed_sameGeo a idxs
+      obtain ⟨a2, e2, v2, s2, h2⟩ := ih (a.markFixed idxs) (markFixed_valid st a idxs hv)
+        (fun o' ho' => hops o' (by simp [ho']))
+      refine ⟨a2, by simp only [applyHist, e2], v2, s2, fun m => ?_⟩
+      obtain ⟨x1, x2, x3⟩ := h2 m
+      refine ⟨x1.trans ?_, x2.trans ?_, x3.trans ?_⟩
+      · exact forall2_sameGeo_sum hg _ (fun c c' hh => by rw [occ_sameGeo hh, hh.sides.2.2.2.2])
+      · exact forall2_sameGeo_sum hg _ (fun c c' hh => by rw [occ_sameGeo hh, hh.sides.2.2.2.2, hh.1])
+      · exact forall2_sameGeo_sum hg _ (fun c c' hh => by rw [occ_sameGeo hh, hh.sides.2.2.2.2, hh.2.1])
 
 /-- what `Refines` gives for a single final cell and for fixed cells (unfolding of the relation). -/
 theorem refines_unfold (cs cs' : List (Cell α)) (h : Refines cs cs') :
@@ -233,5 +425,57 @@ example : (match mkAllocation exEnv ⟨-1, -1⟩ exRawF with
     | .ok (a, st) => (match applyOp exEnv st a .uniform with
         | .ok (a', _) => (a.cells.length, a'.cells.length, a'.cells.any (fun c => c.rect.fixed && c.depth == 0)) | .error _ => (0, 0, false))
     | .error _ => (0, 0, false)) = (3, 4, true) := by decide +kernel
+
+/-- the exception of a result, if any (for the examples). -/
+def errOf {β : Type} : Except AErr β → Option AErr | .ok _ => none | .error e => some e
+
+/-- the read accessors on `exRaw` (3 cells, modules M1, M2; kernel evaluation of the model): counts, Python indexing
+    (`-1` is the last cell, `3` fails the assertion, `-4` is an `IndexError`), the index / ratio pairs of `M2`, a name no
+    cell lists, and `check_compatible` against equal / permuted / smaller / larger name sets. -/
+example : (match mkAllocation exEnv ⟨-1, -1⟩ exRaw with
+    | .ok (a, _) =>
+      a.numRectangles == 3 && a.numModules == 2 && a.maxRefinementDepth.toOption == some 1 &&
+      (a.allocationRectangle (-1)).toOption.map (·.depth) == some 0 &&
+      (a.allocationRectangle 1).toOption.map (·.depth) == some 1 &&
+      errOf (a.allocationRectangle 3) == some .assertion && errOf (a.allocationRectangle (-4)) == some .index &&
+      (a.allocationModule "M2").toOption == some [(0, 1/4), (1, 3/4)] && errOf (a.allocationModule "nope") == some .key &&
+      a.checkCompatible ["M1", "M2"] && a.checkCompatible ["M2", "M1", "M2"] && !a.checkCompatible ["M1"] &&
+      !a.checkCompatible ["M1", "M2", "M3"]
+    | .error _ => false) = true := by decide +kernel
+
+/-- `op_keeps_modules` applied: after `refine(1/2, 2)` on `exRaw` the allocation is still compatible with exactly the
+    netlists it was compatible with, and `allocationModule_consistent` has its premises met (`M2` is listed). -/
+example : ∃ a st b, mkAllocation exEnv ⟨-1, -1⟩ exRaw = .ok (a, st) ∧ applyOp exEnv st a (.refine (1/2) 2) = .ok (b, st) ∧
+    (∀ names, b.checkCompatible names = a.checkCompatible names) ∧ b.numModules = a.numModules ∧
+    b.allocationModule "M2" = .ok (moduleAllocs "M2" b.cells) := by
+  obtain ⟨a, st, h, hv⟩ := ex_valid
+  obtain ⟨b, hb⟩ := op_ok exEnv st a (.refine (1/2) 2) hv (by norm_num [OpOK])
+  obtain ⟨hm, hn, hc, _⟩ := op_keeps_modules exEnv st st a b (.refine (1/2) 2) hv (by norm_num [OpOK]) hb
+  refine ⟨a, st, b, h, hb, hc, hn, (allocationModule_consistent b "M2").2.1 ?_⟩
+  rw [hm]
+  have hc2 : (match mkAllocation exEnv ⟨-1, -1⟩ exRaw with
+      | .ok (a, _) => decide ("M2" ∈ modules a.cells) | .error _ => false) = true := by decide +kernel
+  rw [h] at hc2
+  simpa using hc2
+
+/-- `flagged_then_uncut` / `history_conserve` applied to `exRaw`: the first cell (ratios 1/2, 1/4 — it WOULD be split at
+    threshold 1/2, and `must_be_refined(1/2)` says so) is flagged fixed in place, then `refine(1/2, 1)` keeps it whole and,
+    no other cell qualifying, returns the same 3 cells (kernel evaluation of the model for the counts). -/
+example : ∃ a st b, mkAllocation exEnv ⟨-1, -1⟩ exRaw = .ok (a, st) ∧ mustBeRefined a (1/2) = true ∧
+    applyHist exEnv [.fix [0], .op (.refine (1/2) 1)] st a = .ok (b, st) ∧ ValidAlloc st b ∧ b.stats = a.stats := by
+  obtain ⟨a, st, h, hv⟩ := ex_valid
+  obtain ⟨b, h1, h2, h3, _⟩ := history_conserve exEnv st [.fix [0], .op (.refine (1/2) 1)] a hv
+    (by intro o ho; simp at ho; subst ho; norm_num [OpOK])
+  refine ⟨a, st, b, h, ?_, h1, h2, h3⟩
+  have hc : (match mkAllocation exEnv ⟨-1, -1⟩ exRaw with
+      | .ok (a, _) => mustBeRefined a (1/2) | .error _ => false) = true := by decide +kernel
+  rw [h] at hc; exact hc
+
+example : (match mkAllocation exEnv ⟨-1, -1⟩ exRaw with
+    | .ok (a, st) => (match applyHist exEnv [.fix [0], .op (.refine (1/2) 1)] st a with
+        | .ok (b, _) => b.cells.length == 3 && b.cells.any (fun c => c.rect.fixed && decide (c.rect.w = 2) && c.depth == 0) &&
+            !mustBeRefined b (1/2)
+        | .error _ => false)
+    | .error _ => false) = true := by decide +kernel
 
 end FV.C02
